@@ -407,6 +407,15 @@ func ServerCheck(sc sim.Scenario, h *sim.History, opt ServerOptions) []Problem {
 				}
 				if p := MatchReplies("C01", exp, r.wire, invs); p != nil {
 					p.Msg = fmt.Sprintf("record %d %s: %s", r.idx, r.raw, p.Msg)
+					// a mismatch belongs to C07 only if the member or the reply at fault is
+					// about duplicate-id handling
+					dupInvolved := strings.Contains(p.ItemText, "duplicate request ID")
+					if p.Member >= 0 && p.Member < len(r.members) && r.members[p.Member].dup == "yes" {
+						dupInvolved = true
+					}
+					if dupInvolved && (p.Sig == "C01/reply-mismatch" || p.Sig == "C01/handler-ran-for-non-request" || p.Sig == "C01/handler-not-run") {
+						p.Sig = "C07/duplicate-id-handling"
+					}
 					probs = append(probs, *p)
 				}
 				for i, s := range r.wireSeq {
@@ -663,10 +672,14 @@ func ServerCheck(sc sim.Scenario, h *sim.History, opt ServerOptions) []Problem {
 			flush()
 			// Per-record expectations at this quiescent point.
 			running, waiting := 0, 0
+			earlierCallRunning := false
 			for _, r := range cur() {
 				for _, m := range r.members {
 					if m.enterSeq >= 0 && m.exitSeq < 0 {
 						running++
+						if m.exp.Class == refrpc.Call {
+							earlierCallRunning = true
+						}
 					}
 				}
 			}
@@ -694,6 +707,8 @@ func ServerCheck(sc sim.Scenario, h *sim.History, opt ServerOptions) []Problem {
 					add("C03/record-answered-before-barrier", "record %d %s was answered although an earlier notification has not returned", r.idx, r.raw)
 				case hasReply(r) && !recDone(r) && !ambiguous(r):
 					add("C01/reply-before-handlers-returned", "record %d %s was answered (%q) while one of its handlers is still running", r.idx, r.raw, r.wire)
+				case !hasReply(r) && isStarted && recDone(r) && expectsReply(r) && !ambiguous(r) && !builtinWaiting(r, running, limit) && earlierCallRunning:
+					add("C03/later-request-delayed", "record %d %s is not answered although nothing but a still-running call precedes it", r.idx, r.raw)
 				case !hasReply(r) && isStarted && recDone(r) && expectsReply(r) && !ambiguous(r) && !builtinWaiting(r, running, limit):
 					add("C01/reply-missing-at-quiescence", "record %d %s: all its handlers have returned and nothing blocks it, but no reply was sent", r.idx, r.raw)
 				}
@@ -740,7 +755,15 @@ func ServerCheck(sc sim.Scenario, h *sim.History, opt ServerOptions) []Problem {
 					add("C06/limit-exceeded", "%d handlers executing at a quiescent point, limit %d", running, limit)
 				}
 				if waiting > 0 && running < limit {
-					add("C06/not-work-conserving", "%d dispatched request(s) have not started although only %d of %d slots are in use", waiting, running, limit)
+					// Why does a dispatched request not run although a slot is free?  The
+					// same symptom with a still-running earlier call and a far-from-saturated
+					// limit is a later request being held back (C03); otherwise the slot
+					// accounting is at fault (C06).
+					if earlierCallRunning && running*4 < limit {
+						add("C03/later-request-delayed", "%d request(s) of started records have not begun although an earlier call is merely still running and only %d of %d slots are in use", waiting, running, limit)
+					} else {
+						add("C06/not-work-conserving", "%d dispatched request(s) have not started although only %d of %d slots are in use", waiting, running, limit)
+					}
 				}
 			}
 			// Context states and reservations (C07).
